@@ -21,6 +21,7 @@ import (
 	"math"
 	"reflect"
 	"regexp"
+	"sort"
 	"time"
 )
 
@@ -243,6 +244,19 @@ func reifyMap(opts *options, to reflect.Value, from *Config, validators []valida
 		if v.IsValid() {
 			// v is of the element's base type when an existing *T entry was merged into
 			to.SetMapIndex(key, pointerize(to.Type().Elem(), v.Type(), v))
+		}
+	}
+
+	// entries the configuration does not mention are validated as they stand,
+	// like the whole map is when the configuration is empty
+	keys := to.MapKeys()
+	sort.Slice(keys, func(i, j int) bool { return keys[i].String() < keys[j].String() })
+	for _, key := range keys {
+		if _, mentioned := fields[key.String()]; mentioned {
+			continue
+		}
+		if err := tryRecursiveValidate(to.MapIndex(key), opts, nil); err != nil {
+			return raiseValidation(from.ctx, from.metadata, "", err)
 		}
 	}
 
